@@ -481,7 +481,7 @@ fn run_ms<T: MS>(tr: &mut T, ops: &[(String, HashMap<String, i64>)], out: &mut O
                 tr.clear();
                 rf.e.clear();
             }
-            "first_index_less" | "first_index_less_by" | "pred_read" | "pred_write" | "pred_delete" | "pred_after" | "pred_before" => {
+            "first_index_less" | "first_index_less_by" | "pred_read" | "pred_write" | "pred_delete" | "pred_after" | "pred_before" | "pred_insert_read" => {
                 let p9 = g("p9") as u16;
                 let (h, e) = if name == "first_index_less_by" {
                     (tr.fil_by(p9), rf.pred(None, &|x| 2 * (x as u16) <= p9))
@@ -502,6 +502,18 @@ fn run_ms<T: MS>(tr: &mut T, ops: &[(String, HashMap<String, i64>)], out: &mut O
                             tr.set_at(h, g("nv") as u8);
                             for e in rf.e.iter_mut() {
                                 if e.present && e.k == pk { e.v = g("nv") as u8; }
+                            }
+                        }
+                        "pred_insert_read" => {
+                            let (k2, v2) = (g("k2") as u8, g("v2") as u8);
+                            tr.insert(k2, v2);
+                            rf.e.push(Entry { k: k2, x: 0, v: v2, present: true });
+                            let (gk, gv) = tr.at(h);
+                            if gv != pv || gk.map_or(false, |x| x != pk) {
+                                out.mismatch(i, "C17:handle-stable-read", format!("expected ({},{}) got ({:?},{})", pk, pv, gk, gv));
+                            }
+                            if tr.fil(pk) != h {
+                                out.mismatch(i, "C17:handle-stable-lookup", format!("handle {} became {}", h, tr.fil(pk)));
                             }
                         }
                         "pred_delete" => {
